@@ -331,6 +331,9 @@ def r15_5(chk: Check):
                 vm_defs = [st for st in own_nodes(fmx.node) if isinstance(st, (ast.Assign, ast.AnnAssign)) and st.value is not None and eqx(st.value, "self.cb")]
                 vmS = plain.sym(_target_name(vm_defs[0])) if len(vm_defs) == 1 else None
                 if vmS is not None:
+                    cbS = plain.sym("self.cb")
+                    Mt = Mt.subs(vmS, cbS)          # the closure variable, whether or not it was looked through
+                    vmS = cbS
                     Es = Et.subs({a_: A, v_: vmS}, simultaneous=True)
                     okm, howm = is_zero(sp.simplify(Mt - Es), chk.seed, ranges={w_: (0.5, 2), vp_s: (0.1, 0.9), vmS: (0.1, 0.9), mu_: (4, 5), nu_: (4, 5), alN_: (0.01, 0.3)})
                 else:
